@@ -296,7 +296,7 @@ func (e *specEnv) binary(x *ast.BinaryExpr) sval {
 	case token.SUB:
 		return sval{Val{sub(l, r)}, tInt, ""}
 	case token.MUL:
-		return sval{Val{mul(l, r)}, tInt, ""}
+		return sval{Val{c.mulTerm(l, r)}, tInt, ""}
 	case token.QUO:
 		// mathematical floor division on non-negative operands (spec ints); use div
 		return sval{Val{app("div", l, r)}, tInt, ""}
@@ -613,6 +613,22 @@ func (e *specEnv) callExpr(x *ast.CallExpr) sval {
 			lo = e.old.st.alloc.term()
 		}
 		return sval{Val{and(ge(r, lo), lt(r, e.st.alloc.term()))}, tBool, ""}
+	case "allocated":
+		// allocated(ref): the reference denotes an object that exists in the current state
+		a := e.eval(x.Args[0])
+		return sval{Val{lt(a.v[len(a.v)-1], e.st.alloc.term())}, tBool, ""}
+	case "typeid":
+		lit, ok := x.Args[0].(*ast.BasicLit)
+		if !ok {
+			e.errorf("typeid: argument must be a string literal")
+			return sval{Val{"0"}, tInt, ""}
+		}
+		s, _ := strconv.Unquote(lit.Value)
+		id := c.eng.typeIDByShortName(s)
+		if id == 0 {
+			e.errorf("typeid: unknown type %s", s)
+		}
+		return sval{Val{num(int64(id))}, tInt, ""}
 	case "dyn":
 		// dyn(x): the payload reference of an interface value
 		a := e.eval(x.Args[0])
